@@ -39,7 +39,7 @@ def strategy_(draw, tier):
             "link_vol": draw(st.sampled_from(["home", "vol"])),
             "target_vol": draw(st.sampled_from(["home", "vol", "vol2"])),
             "slashes": draw(st.sampled_from([0, 0, 1, 2, 3])),
-            "reach": draw(st.sampled_from(["abs", "rel", "dotrel", "via_link_dir", "via_link_chain"])),
+            "reach": draw(st.sampled_from(["abs", "rel", "dotrel", "via_link_dir", "via_link_chain", "via_link_gparent", "via_link_gparent"])),
             "uid": draw(st.sampled_from([1000, 0])),
             "top": draw(st.sampled_from(["absent", "sticky", "absent", "xdev_fallback"])),
             "opts": draw(st.sampled_from([[], ["-v"], ["-f"], ["-r"], ["-d"]])),
@@ -96,10 +96,13 @@ def run_case(case):
     nodes.append({"p": L, "t": "l", "to": text})
     nodes.append({"p": "/data/ln", "t": "l", "to": D})
     nodes.append({"p": "/data/chain", "t": "l", "to": "ln"})
+    # a symlinked directory that is NOT the immediate parent: /data/gp -> dirname(D), arg /data/gp/w/NAME
+    nodes.append({"p": "/data/gp", "t": "l", "to": D.rsplit("/", 1)[0] or "/"})
     cwd = D
     arg = {"abs": L, "rel": case["name"], "dotrel": "./" + case["name"],
            "via_link_dir": "/data/ln/" + case["name"],
-           "via_link_chain": "/data/chain/" + case["name"]}[case["reach"]]
+           "via_link_chain": "/data/chain/" + case["name"],
+           "via_link_gparent": "/data/gp/w/" + case["name"]}[case["reach"]]
     arg += "/" * case["slashes"]
     spec = {"vols": vols, "nodes": nodes, "env": env, "uid": case["uid"], "cwd": cwd,
             "now": "2022-02-02T02:02:02"}
